@@ -113,6 +113,25 @@ where T: Ring + Bridge + crate::mon::c11::PivRing, for<'x> &'x T: RingOps<T>, T:
     check_complex::<T>(ctx, rng, unbounded, vec![n, m], vec![d], json!({"family": "starved two-term", "transposed": transpose}));
 }
 
+/// two-term complex whose only +-1 entries lie in a leading r x r unitriangular block (upper or lower, so
+/// that the pivots have to be reordered among themselves while rows / columns 0..r stay in front); the
+/// blocks beside, below and diagonal to it hold non-units
+fn case_leading_block<T>(ctx: &mut Ctx, rng: &mut Rng, unbounded: bool)
+where T: Ring + Bridge, for<'x> &'x T: RingOps<T>, T::O: OEuc + HomCmp {
+    let r = rng.urange(1, 4);
+    let (m, n) = (r + rng.below(4), r + rng.below(4));
+    let upper = rng.chance(1, 2);
+    let mut d = OMat::<T::O>::zero(m, n);
+    for i in 0..m { for j in 0..n {
+        let v: i64 = if i < r && j < r {
+            if i == j { if rng.chance(1, 2) { 1 } else { -1 } }
+            else if (i < j) == upper { *rng.choose(&[0i64, 0, 1, -1, 2, 3]) } else { 0 }
+        } else if rng.chance(1, 2) { 0 } else { *rng.choose(&[2i64, -2, 3, 4, 6]) };
+        if v != 0 { d.set(i, j, T::O::from_i64(v)) }
+    } }
+    check_complex::<T>(ctx, rng, unbounded, vec![n, m], vec![d], json!({"family": "leading unitriangular block", "r": r, "upper": upper}));
+}
+
 fn check_complex<T>(ctx: &mut Ctx, rng: &mut Rng, unbounded: bool, dims: Vec<usize>, d_in: Vec<OMat<T::O>>, family: serde_json::Value)
 where T: Ring + Bridge, for<'x> &'x T: RingOps<T>, T::O: OEuc + HomCmp {
     let tname = T::name();
@@ -263,6 +282,9 @@ pub fn run(ctx: &mut Ctx) {
     ctx.random_cases("FF<3>", n / 2, |c, r| case::<FF<3>>(c, r, true, false));
     ctx.random_cases("FF<5>", n / 2, |c, r| case::<FF<5>>(c, r, true, false));
     ctx.random_cases("Poly<H,i64>", n, |c, r| case::<Poly<'H', i64>>(c, r, false, true));
+    ctx.random_cases("i64/leading-block", n / 2, |c, r| case_leading_block::<i64>(c, r, false));
+    ctx.random_cases("Ratio<i64>/leading-block", n / 4, |c, r| case_leading_block::<Ratio<i64>>(c, r, false));
+    ctx.random_cases("FF<5>/leading-block", n / 4, |c, r| case_leading_block::<FF<5>>(c, r, true));
     ctx.random_cases("i64/starved", n / 2, |c, r| case_starved::<i64>(c, r, false));
     ctx.random_cases("Ratio<i64>/starved", n / 4, |c, r| case_starved::<Ratio<i64>>(c, r, false));
     let _ = (|| { let m: SpMat<i64> = SpMat::zero((0, 0)); (m.shape(), GenericChainComplex::<i64>::zero().rank(0)) })();
